@@ -136,6 +136,14 @@ CHECKS = {
               "Open known finding: two-qubit gate on a load-written qubit register."),
         technique="contract-based deductive verification (translation validation): vanilla vs. real NV-transpiled program on the real executor with symbolic data, z3 LIA + exact cyclotomic operator identities",
         design_ref="5.C08"),
+    "C17": dict(
+        category="proof",
+        text=("parse_text_subroutine(preamble + str(x), flavour=f).instructions == [x] for every instruction class of every flavour and ALL in-range operand values "
+              "(register banks x indices 0..15, 8-bit immediates, signed 32-bit integers and addresses incl. negative, array entries and slices with register indices): "
+              "the real printers and the real parser are executed on segment strings whose integer renderings are holes; text -> Subroutine -> bytes -> Subroutine -> text "
+              "stability with the real codec; the flavour object is created before the other flavours. Open known finding: vanilla meas_basis/mov opcode clash (C01)."),
+        technique="contract-based deductive verification: segment-string symbolic execution of the real printers and the real text parser (decisions on literals, boundaries and signs only), z3 LIA; str/int builtin lemma assumed",
+        design_ref="5.C17"),
     "C19": dict(
         category="proof",
         text=("Loop-invariant proof of get_angle_spec_from_float over the reals for every angle and every tolerance in [1e-9, 1]: the real loop "
